@@ -589,7 +589,7 @@ JudgeFile(tr, T, ev) ==
     Cl("C17.content", ev.op \in {"save", "exit"} /\ a.ext = "gwl" /\ a.haspath,
        ev.out = "ok" /\ ev.file.exists /\ ev.file.bytes = FileBytes(lines)),
     Cl("C17.latin1", ev.op \in {"save", "exit"} /\ a.ext = "gwl" /\ a.haspath /\ ev.out = "ok",
-       Latin1OK(ev.file.bytes) /\ (lines # <<>> => ev.file.bytes[Len(ev.file.bytes)] # LF)),
+       Latin1OK(ev.file.bytes) /\ (lines # <<>> => (Len(ev.file.bytes) > 0 /\ ev.file.bytes[Len(ev.file.bytes)] # LF))),
     Cl("C17.readback", ev.op \in {"save", "exit"} /\ a.ext = "gwl" /\ a.haspath /\ ev.out = "ok" /\ lines # <<>>,
        \* the harness' split at CRLF, and (for files of moderate size) the specification's own splitter
        /\ ev.file.lines = lines
